@@ -237,10 +237,12 @@ struct Value {
             break;
         case T_DATA:
             if (data.size() < 5) {
-                // we need to push this as a number
+                // push as a number when (and only when) that yields exactly these bytes
                 int64_t i = int_value();
-                s << i;
-                break;
+                if (CScriptNum::serialize(i) == data) {
+                    s << i;
+                    break;
+                }
             }
             // fall-through
         default:
